@@ -6,6 +6,11 @@ open Lean Zeno
 
 def step (base : Bool) (j : Json) : Except String String := do
   let F := if base then Zeno.Base.Disk.facts else Zeno.Gen.Disk.facts
+  -- the command-line path: what the configuration holds when the operator gives `givenq`
+  if let some _ := (j.getObjVal? "givenq").toOption then
+    let v ← rat j "givenq"
+    let c := Model.Disk.configured F (some v)
+    return s!"{c.num}/{c.den}"
   let total ← nat j "total"
   let free ← nat j "free"
   let msr ← rat j "msrq"
